@@ -9,7 +9,7 @@ REQUIRED = ["DaeVerif.C03.Props." + n for n in (
     "lan_new_tcp_connection", "lan_new_tcp_map_full", "lan_new_udp_flow", "lan_dns_datagram",
     "lan_tracked_tcp_follows_cache", "lan_tracked_udp_follows_cache", "lan_untracked_tcp_passes",
     # WAN egress, one frame
-    "wan_forwarded_passes", "wan_new_tcp_connection", "wan_new_udp_flow", "wan_dns_datagram",
+    "wan_forwarded_passes", "wan_new_tcp_connection", "wan_new_tcp_map_full", "wan_new_udp_flow", "wan_dns_datagram",
     "wan_tracked_tcp_follows_cache", "wan_tracked_udp_follows_cache", "wan_untracked_tcp_passes",
     "dae_udp_never_captured", "dae_tcp_syn_passes_and_clears",
     # whole runs
